@@ -386,7 +386,8 @@ def trace(fn: ast.AST, resolve=None, max_depth: int = 2) -> List[Event]:
                     tname = ast.unparse(tgts[0]) if tgts else None
                     if val is not None:
                         expr_events(val, conds, protected, target=tname)
-                        events.append(Event("assign", st, conds, protected, subst, f, depth, target=tname, value=val, loops=loops))
+                        for tg in tgts:      # a = b = v assigns both
+                            events.append(Event("assign", st, conds, protected, subst, f, depth, target=ast.unparse(tg), value=val, loops=loops))
                 elif isinstance(st, ast.Expr):
                     expr_events(st.value, conds, protected)
                 elif isinstance(st, (ast.Continue, ast.Break)):
@@ -623,3 +624,13 @@ class ElemSources:
         if isinstance(x, ast.Attribute):
             return {f"attr:{x.attr}"}
         return {"?"}
+
+
+def trace_block(stmts: Sequence[ast.stmt], host: ast.AST, resolve=None, max_depth: int = 2) -> List[Event]:
+    """trace of a statement list that lives inside `host` (closures of host stay visible)"""
+    fake = ast.FunctionDef(name="<block>", args=host.args, body=list(stmts), decorator_list=[], returns=None, type_comment=None,
+                           lineno=getattr(stmts[0], "lineno", 0) if stmts else 0, col_offset=0)
+    closures = [n for st in host.body for n in ast.walk(st) if isinstance(n, (ast.FunctionDef, ast.AsyncFunctionDef))]
+    if closures:
+        fake.body = closures + fake.body
+    return trace(fake, resolve, max_depth)
